@@ -19,10 +19,16 @@ def mk_contract_seq(I, base="contracts"):
     f = I.func(base, IntS, K)
     inv = I.func(base + "?inv", K, IntS)
     I.assume(n >= 0)
-    seq = sym_seq(I, lambda i: KeyV(f(i)), n, "list")
+    def at(i):
+        t = f(i)
+        I.add_key(t)          # contracts of the space are keys of the path: pointwise facts are instantiated on them
+        return KeyV(t)
+    seq = sym_seq(I, at, n, "list")
     I.heap[seq.oid]["inv"] = lambda k: inv(k)
     I.assume_pwi(lambda i: z3.Implies(z3.And(i >= 0, i < n), inv(sh(f(i))) == i))
     I.assume_pw(lambda k: sh(sh(k)) == sh(k))
+    # TRUSTED: static hashing never turns a non-cash contract into cash nor vice versa (Cash hashes to itself; a chain's lead is a Future)
+    I.assume_pw(lambda k: is_cash(sh(k)) == is_cash(k))
     return seq
 
 
@@ -119,8 +125,10 @@ def denoted_allocation(I, sp, action, heap=None):
         val = lambda j: tab.at(action.v, j)
     def dom(k):
         j = inv(k)
+        I.add_idx(j)
         return z3.And(j >= 0, j < n, sh(at(j).t) == k, z3.Not(is_cash(at(j).t)), z3.Or(val(j).nan, val(j).v != 0))
     def get(k):
+        I.add_idx(inv(k))
         return val(inv(k))
     return get, dom
 
